@@ -299,6 +299,19 @@ def F15():
     return ["phase registry holds keys that are no components: %r" % extra] if extra else []
 
 
+def F16():
+    """C09: a Rectifier with a phase list never sleeps, yet its warnings were suppressed in the phases the list does not name"""
+    s = System("x", Source("12V", vo=12.0))
+    s.add_comp("12V", comp=Rectifier("rect", vdrop=0.7, limits={"vo": [0, 5]}))
+    s.add_comp("rect", comp=ILoad("ld", ii=0.1))
+    s.set_sys_phases({"a": 1, "b": 1})
+    s.set_comp_phases("rect", ["a"])
+    df = s.solve()
+    r = df[df.Component == "rect"]
+    w = dict(zip(r.Phase, r.Warnings))
+    return [] if w["b"] == "vo" else ["rectifier at 10.6 V with vo limit [0, 5]: Warnings %r in phase a, %r in phase b" % (w["a"], w["b"])]
+
+
 ALL = {k: v for k, v in globals().items() if k[0] == "F" and k[1:].isdigit()}
 if __name__ == "__main__":
     rc = 0
